@@ -1,6 +1,6 @@
 From Coq Require Import Extraction ExtrOcamlBasic ExtrOcamlString.
 From Coq Require Import QArith ZArith.
-From Oras Require Import Base.Prelude Generated.GC17 Model.Retry.
+From Oras Require Import Base.Prelude Base.RetryTypes Generated.GC17 Model.Retry.
 Extraction Language OCaml.
 Extraction "xc17.ml" round_trip auth_do auth_do_tok blob_push_gen auth_attempts table_policy default_predicate custom_predicate accept_decision generic_retry
   default_eparams exp_backoff_guarded default_max_retry default_min_wait default_max_wait
